@@ -18,6 +18,12 @@ BUILT = {
  'C01e1': 'O2.5a native scenario with the shortest WAL records', 'C08e2': 'O9.3 transient-fault scenario; O9.3 listed under C08', 'C08e1': 'O7.13', 'C10e1': 'O10.10 + layout audit step', 'C10e2': 'O10.10',
  'C09e2': 'O7.11 fault-sweep scenario; O7.11 listed under C09', 'C09e1': 'take_while / count summaries; a panicking compact_range set-up counts as reproduced; O7.8 listed under C09', 'C12e2': 'Vec::reserve summary',
  'C03e2': 'O6.1 listed under C03', 'C02e1': 'O11.1 listed under C02', 'C01e2': 'O7.4b listed under C01', 'C16e1': 'O12.4 listed under C16',
+ 'C02f1': 'O8.4: the temp file of a CURRENT switch is created empty + stale_temp_before_switch replay', 'C03f2': 'O3.3 with three live versions (a pinned middle one), list by contract incl. head / tail; Option / Chain iterator summaries',
+ 'C11f2': 'O3.3: the version set model has a current_version', 'C09f1': 'O9.3: the awaited background work may also fail + parked_writer_flush_fails replay', 'C11f1': 'O11.2 native scenario two_wal_crash_reopen',
+ 'C08f1': 'O14.7 listed under C08 + table_write_transient_fault_sweep replay; O8.6 built next to it', 'C10f1': 'O10.13 (several edits accumulated on one builder)', 'C15f2': 'byte-level readers: by_ref / take / read_to_end',
+ 'C16f1': 'O2.5a: no base version for tables written during log replay; two_wal_crash_reopen noreuse', 'C03g1': 'O3.4: Arc::strong_count as a free value, snapshots of one state in the replay, 4 operations in the quick tier',
+ 'C02g1': 'io::Error::new summary', 'C01g1': 'Range::contains summary', 'C02g2': 'format / must_use summaries', 'C05g2': 'O5.5 + snapshot_interleave replay (logger hook)', 'C04g2': 'O4.3: transient read error at a block crossing, then seek; FaultFs read faults',
+ 'C06g2': 'O4.2: deep version stacks (10 versions of one key)', 'C10g2': 'O10.14 (SSTables descriptor order)', 'C15g1': 'O15.5 replays also alter the fragment type byte', 'C08g2': 'as C08f1', 'C11g2': 'O17.2 listed under C11',
 }
 rows = []
 for sid in sorted(os.listdir(os.path.join(HERE, 'seeded'))):
@@ -38,8 +44,8 @@ text = ['## 7. Seeded changes (independent sub-agents, property text only)', '',
         'fails with the change; the existing suite passes with it). Rounds c and d carried an exclusion list of the functions already',
         'used, which pushed the later changes into code no check covered yet (block iterator, file metadata, file names, table cache,',
         'snapshot list, linked list, writer protocol, log writer faults, table builder finalisation, filter block reader, disk lock).',
-        'Round e had no steer beyond the two flavours of the brief (multi-step / two sites; crash, fault, interleaving, unusual input); round f',
-        'pointed each agent at a different group of source files. Several agents of one round arrive at the same change independently',
+        'Round e had no steer beyond the two flavours of the brief (multi-step / two sites; crash, fault, interleaving, unusual input); rounds f and g',
+        'pointed each agent at a different group of source files (g: the files the earlier rounds had touched least). Several agents of one round arrive at the same change independently',
         '(sequence number published before the memtable insert: C03e2, C06e1, C06e2; filter key de-duplication across blocks: C13e1, C14e1,',
         'C14e2; `First` fragment appended instead of replacing: C12e1, C12e2, C16e1, C08f2) - a hint at which mistakes are the likely ones.',
         '`tools/seed_matrix.py` applies every change to a private copy of /repo and runs the *whole quick check* of its property (and of',
